@@ -28,7 +28,7 @@ SYL = ['ka', 'to', 'mi', 'ra', 'zen', 'lo', 'pi', 'nu', 'ver', 'bo', 'qua', 'tis
 EXTERN_CPP = [
     ('int', 'int'), ('long', 'long'), ('std::string', 'str'), ('::sim::Tracked', 'tracked'),
     ('TokInt', 'int'), ('TokStr', 'str'), ('TokTracked', 'tracked'), ('TokLong', 'long'),
-    ('::TokInt', 'int'), ('::std::string', 'str'),
+    ('::TokInt', 'int'), ('::std::string', 'str'), ('::sim::BoxA', 'boxa'), ('::sim::BoxB', 'boxb'),
 ]
 
 
@@ -114,6 +114,7 @@ def _gen_spec(rng: Rng, want_mc, min_ports, profile, mc_triggers=False) -> dict:
     names = NameGen(rng)
     if want_mc is None:
         want_mc = rng.chance(45)
+    big = profile == 'default' and rng.chance(10)   # occasionally a large model: many ports, events and formals
 
     # ---- namespaces
     ns_ids = [names.ident('ns', rng.choice(['upper', 'upper', 'lower', 'any'])) for _ in range(rng.between(1, 4))]
@@ -148,6 +149,19 @@ def _gen_spec(rng: Rng, want_mc, min_ports, profile, mc_triggers=False) -> dict:
         ns = pick_ns()
         cpp, codec = rng.choice(EXTERN_CPP)
         externs.append({'kind': 'extern', 'ns': ns, 'name': fresh_name(ns), 'cpp': cpp, 'codec': codec})
+    # twins: the same simple name declared again in another namespace with a different data type (int/long and
+    # BoxA/BoxB convert into each other, so a name-keyed mix-up still compiles)
+    for _ in range(rng.between(0, 2)):
+        src = rng.choice(externs)
+        ns = pick_ns()
+        if tuple(ns + [src['name']]) in fqns:
+            continue
+        pair = {'boxa': ('::sim::BoxB', 'boxb'), 'boxb': ('::sim::BoxA', 'boxa'), 'int': ('long', 'long'), 'long': ('int', 'int')}.get(src['codec'])
+        if not pair:
+            src['cpp'], src['codec'] = '::sim::BoxA', 'boxa'
+            pair = ('::sim::BoxB', 'boxb')
+        fqns.add(tuple(ns + [src['name']]))
+        externs.append({'kind': 'extern', 'ns': ns, 'name': src['name'], 'cpp': pair[0], 'codec': pair[1], 'twin': True})
     # ---- namespace level enums / subints
     enums = []
     for _ in range(rng.between(1 if want_mc else 0, 3)):
@@ -179,9 +193,9 @@ def _gen_spec(rng: Rng, want_mc, min_ports, profile, mc_triggers=False) -> dict:
             lo = rng.between(0, 2)
             itf['subints'].append({'kind': 'subint', 'ns': itf_fqn, 'name': n, 'lo': lo, 'hi': lo + rng.between(1, 4)})
         evnames = NameGen(rng)
-        n_ev = rng.weighted([(1, 0), (3, 1), (4, 2), (4, 3), (3, 4), (2, 5)])
+        n_ev = rng.weighted([(1, 0), (3, 1), (4, 2), (4, 3), (3, 4), (2, 5)]) if not big else rng.between(4, 9)
         for _ in range(n_ev):
-            itf['events'].append(_event(rng, evnames, itf, externs, enums, subints))
+            itf['events'].append(_event(rng, evnames, itf, externs, enums, subints, many_formals=big))
         interfaces.append(itf)
 
     # ---- multi-client capable interface
@@ -242,6 +256,9 @@ def _gen_spec(rng: Rng, want_mc, min_ports, profile, mc_triggers=False) -> dict:
     if profile == 'many_ports':
         n_prov = rng.between(2, 5)
         n_req = rng.between(2, 6)
+    if big:
+        n_prov = rng.between(3, 5)
+        n_req = rng.between(3, 6)
     n_inj = rng.weighted([(6, 0), (3, 1), (1, 2)])
     if want_mc and n_prov == 0:
         n_prov = 1
@@ -319,14 +336,14 @@ def _fields(rng, names, lo, hi):
     return [fn.ident('f', rng.choice(['upper', 'any'])) for _ in range(rng.between(lo, hi))]
 
 
-def _event(rng, evnames, itf, externs, enums, subints, force_dir=None, force_name=None, force_ret=None):
+def _event(rng, evnames, itf, externs, enums, subints, force_dir=None, force_name=None, force_ret=None, many_formals=False):
     direction = force_dir or rng.weighted([(3, 'in'), (2, 'out')])
     name = force_name or evnames.ident('ev')
     if force_name:
         evnames.reserve('ev', force_name)
     fn = NameGen(rng)
     formals = []
-    nform = rng.weighted([(3, 0), (4, 1), (3, 2), (2, 3), (1, 4)])
+    nform = rng.weighted([(3, 0), (4, 1), (3, 2), (2, 3), (1, 4)]) if not many_formals else rng.between(2, 7)
     for _ in range(nform):
         ext = rng.choice(externs)
         fdir = 'in' if direction == 'out' else rng.weighted([(5, 'in'), (3, 'out'), (2, 'inout')])
